@@ -42,7 +42,7 @@ WR_ALL = both(wr.rule_wr_ret, wr.rule_wr_prop, wr.rule_wr_fin, wr.rule_wr_top, w
 CONF_ALL = both(conf.rule_pa_conf, conf.rule_wr_order, conf.rule_pa_excl, conf.rule_pa_hdrcall, conf.rule_hd_arity, conf.rule_pa_with, conf.rule_rs_proto)
 AG_ALL = one(agfold.rule_ag_numparse_js) + both(ag.rule_ag_route, ag.rule_ag_init, ag.rule_ag_stage, ag.rule_ag_const, ag.rule_ag_sib, ag.rule_ag_starcount, ag.rule_ag_keyord, agfold.rule_ag_fold, agfold.rule_ag_median) + one(ag.rule_ag_mad, agfold.rule_ag_parse, agfold.rule_ag_numparse)
 JN_ALL = both(ag.rule_jn_dispatch, ag.rule_jn_joiners, ag.rule_jn_build, ag.rule_pa_join)
-HD_ALL = both(hd.rule_hd_table, hd.rule_hd_startwin, hd.rule_hd_except, hd.rule_hd_update, hd.rule_hd_emit, conf.rule_hd_countpos) + one(hd.rule_hd_shapes)
+HD_ALL = both(hd.rule_hd_table, hd.rule_hd_startwin, hd.rule_hd_except, hd.rule_hd_update, hd.rule_hd_emit, conf.rule_hd_countpos) + one(hd.rule_hd_shapes, hd.rule_hd_spantrim)
 VA_ALL = both(hd.rule_va_index, hd.rule_va_enum, hd.rule_va_esc) + one(hd.rule_va_record)
 PA_ALL = both(pa.rule_pa_case, pa.rule_pa_withcase, pa.rule_pa_groups, pa.rule_pa_litorder, pa.rule_pa_cleanorder, pa.rule_pa_lit, pa.rule_pa_litflow, pa.rule_pa_subst, pa.rule_pa_litcheck, pa.rule_pa_top, pa.rule_pa_zero, pa.rule_pa_asc, pa.rule_pa_redund, pa.rule_rx_guard)
 CS_ALL = both(cs.rule_rx_field, cs.rule_rx_newline, cs.rule_rx_ws, cs.rule_cs_trigger, cs.rule_cs_accept, cs.rule_cs_width, cs.rule_cs_extws, cs.rule_cs_dispatch, cs.rule_cs_writer, cs.rule_cs_reader)
